@@ -320,6 +320,7 @@ def run(ctx):
                        'index objects have 2 or 3 components']
     if ctx.ensure_library():
         ctx.prove(['theories/Props/C09.v'])
+        ctx.loops_obligations()        # regenerated from the current source: see coq/obl/Lp_C09.v
     cases = gen_cases(ctx.rng, ctx.tier)
     ctx.log('%d cases' % len(cases))
     terms, idx, bad = [], [], []
